@@ -99,7 +99,7 @@ def upload_case(r):
 
 def shard(args):
     mode, bdir, wd, seed, s, ngroups, rounds, corpus = args
-    r = grammar.Rng(seed * 1000033 + s * 7 + (0 if mode == 'baton' else 1))
+    r = grammar.Rng(seed * 1000033 + s * 7 + {'baton': 0, 'free': 1, 'fiber': 2}[mode])
     cases = []
     cid = s * 1000000
     for g in range(ngroups):
@@ -173,6 +173,10 @@ def run(tier):
     nsh = fw.NPROC
     jobs = [('baton', basan, wd, seed, s, max(1, ng_b // nsh), rounds_b, corpus) for s in range(nsh)]
     jobs += [('free', btsan, wd, seed, s, max(1, ng_t // 8), rounds_t, corpus) for s in range(8)]
+    # the same call-level interleavings with all connections of a group served by ONE thread (coroutines; no sanitizer: the
+    # oracle is the comparison with the solo runs) - state parked in thread-local storage is shared between connections there
+    bplain = build.build('plain')
+    jobs += [('fiber', bplain, wd, seed, s, max(1, ng_b // nsh), rounds_b, corpus) for s in range(nsh)]
     results = fw.pool_map(shard, jobs)
     v.add_crashes(results, 'C19')
     tot = {}
@@ -196,7 +200,7 @@ def run(tier):
                 hxb.write_batch(bpath, group)
                 rp = os.path.join(fw.replay_dir('C19'), name + '.json')
                 with open(rp, 'w') as fh:
-                    json.dump({'variant': 'asan' if d['mode'] == 'baton' else 'tsan', 'programs': ['hx'],
+                    json.dump({'variant': {'baton': 'asan', 'fiber': 'plain'}.get(d['mode'], 'tsan'), 'programs': ['hx'],
                                'cmd': ['hx', 'conc', bpath, '--mode', d['mode'], '--gmin', str(d['n']), '--gmax', str(d['n']), '--rounds', '1', '--round-seed', str(d['round_seed']), '--exit-code']}, fh)
                 if l[0] == 'W':
                     v.add('C19', 'cfg_written', '%s mode, %d connections: %s' % (d['mode'], d['n'], d['detail']), rp)
@@ -208,15 +212,15 @@ def run(tier):
             for key, blk in tsan_reports(text):
                 nrep += 1
                 v.add('C19', key, blk, fw.write_text_replay('C19', key, blk))
-    b, f = tot.get('baton', {}), tot.get('free', {})
-    if (not b or not f) and not v.violations:
+    b, f, fb = tot.get('baton', {}), tot.get('free', {}), tot.get('fiber', {})
+    if (not b or not f or not fb) and not v.violations:
         raise fw.Inconclusive('a mode produced no summary')
-    cov = {'evaluations': b.get('runs', 0) + f.get('runs', 0), 'distinct_nontrivial': b.get('distinct_schedules', 0),
-           'rule': 'an evaluation is one connection run (solo reference runs included); distinct_nontrivial = distinct call-level interleavings (hash of the baton schedule) executed in baton mode. '
+    cov = {'evaluations': b.get('runs', 0) + f.get('runs', 0) + fb.get('runs', 0), 'distinct_nontrivial': b.get('distinct_schedules', 0) + fb.get('distinct_schedules', 0),
+           'rule': 'an evaluation is one connection run (solo reference runs included); distinct_nontrivial = distinct call-level interleavings (hash of the schedule) executed in baton mode (one thread per connection) and in fiber mode (all connections of a group on one thread). '
                    'Groups of 2..8 connections share one htp_cfg_t (8 profiles: personalities, decoders with best-fit, parsers, decompression both ways, tx-level hooks, two callbacks per hook, auto-destroy); '
                    'inputs: corpus + compressed bodies (gzip/deflate/lzma, all framings) + UTF-8/%u URIs, re-cut so state spans many calls.',
-           'baton': b, 'tsan_free': f, 'tsan_reports': nrep, 'profiles': len(PROFILES),
+           'baton': b, 'fiber_one_thread': fb, 'tsan_free': f, 'tsan_reports': nrep, 'profiles': len(PROFILES),
            'samples': [{'group_profile': PROFILES[2], 'ops': [[k, (d or b'')[:60].decode('latin-1')] for k, d in recut(grammar.Rng(1), uri_case(grammar.Rng(2)))][:6]}]}
     return v.finish(cov, assumptions=['zlib (system library) is not instrumented: ThreadSanitizer does not see its accesses; cross-connection corruption through it is caught by the dump comparison instead',
                                       'free-mode schedules are whatever the OS produced with injected yields; they are not enumerated'],
-                    min_obs={'baton_switches': (b.get('switches', 0), 1000), 'tsan_overlapped_calls': (f.get('overlapped_calls', 0), 1000), 'tsan_runs': (f.get('runs', 0), 100), 'cfg_hash_checks': (b.get('cfg_hash_checks', 0) + f.get('cfg_hash_checks', 0), 50)})
+                    min_obs={'baton_switches': (b.get('switches', 0), 1000), 'fiber_switches': (fb.get('switches', 0), 1000), 'tsan_overlapped_calls': (f.get('overlapped_calls', 0), 1000), 'tsan_runs': (f.get('runs', 0), 100), 'cfg_hash_checks': (b.get('cfg_hash_checks', 0) + f.get('cfg_hash_checks', 0), 50)})
